@@ -232,7 +232,38 @@ def gen_cases(ctx, n):
         seen.add(g.render())
         grams.append(g)
         fams.append(name)
-    return grams, fams
+    kinds = ["O"] * len(grams)
+    # ---- YaccKind::Eco with 0 / 1 / 2 (rarely 3) %implicit_tokens over a sample of the grammars above: cfgrammar
+    # appends `^: ^~; ~: w ~ | … | ; ^~: ~ S` AFTER the user's productions, so the grammar's last production is not
+    # the (never reduced) start production but `^~: ~ S`, which is reduced on `$` ----
+    t, r = (lambda x: ('t', x)), (lambda x: ('r', x))
+    eco_bases = [G.Gram(["a", "b"], [("S", [[t("a"), r("S")], [t("b")]])]),
+                 G.Gram(["a", "c"], [("S", [[t("a")], [r("T")]]), ("T", [[t("c")], []])])]
+    n_eco = ctx.n(300, 2400)
+    pool = [g for g in grams if not getattr(g, "raw", False)]
+    eco_bases += rng.sample(pool, min(len(pool), max(0, n_eco - 3 * len(eco_bases))))
+    for i, g in enumerate(eco_bases):
+        ks = [0, 1, 2] if i < 2 else [[0, 1, 2, 1, 2, 2, 1, 3][i % 8]]
+        for k in ks:
+            ge = with_implicit(g, k)
+            if ("E", ge.render()) in seen:
+                continue
+            seen.add(("E", ge.render()))
+            grams.append(ge)
+            fams.append("eco_implicit_%d" % k)
+            kinds.append("E")
+    return grams, fams, kinds
+
+
+def with_implicit(g, k):
+    """the grammar with k fresh %implicit_tokens (to be built with YaccKind::Eco)"""
+    ws, i = [], 0
+    while len(ws) < k:
+        if "w%d" % i not in g.tokens:
+            ws.append("w%d" % i)
+        i += 1
+    return G.Gram(g.tokens + ws, g.rules, precs=g.precs, start=g.start, avoid_insert=g.avoid_insert,
+                  expect=g.expect, expectrr=g.expectrr, implicit=ws)
 
 
 def run(ctx):
@@ -243,25 +274,26 @@ def run(ctx):
     mexe = core.build_model("c16")
     replay = getattr(ctx, "replay", None)
     if replay:
-        grams, fams = [RawGram(json.load(open(replay))["grammar"])], ["replay"]
+        rj = json.load(open(replay))
+        grams, fams, kinds = [RawGram(rj["grammar"])], ["replay"], [rj.get("kind", "O")]
     else:
-        grams, fams = gen_cases(ctx, ctx.n(1500, 12000))
+        grams, fams, kinds = gen_cases(ctx, ctx.n(1500, 12000))
     srcs = [g.render() for g in grams]
-    impl = core.run_lines([exe], [dump_case(s) for s in srcs])
+    impl = core.run_lines([exe], [dump_case(s, k) for s, k in zip(srcs, kinds)])
     model = core.run_lines([mexe], impl)
-    tot_states = tot_cells = n_known = n_erased_cells = 0
-    for g, fam, src, il, ml in zip(grams, fams, srcs, impl, model):
+    tot_states = tot_cells = n_known = n_erased_cells = n_last_reduced = n_added_reduced = 0
+    for g, fam, src, kind, il, ml in zip(grams, fams, srcs, kinds, impl, model):
         ctx.count("family_" + fam)
         d = TDump(il)
         if not d.ok:
             what = il.split()[0] if il else "EMPTY"
             ctx.count("not_built_" + what)
             if what in ("BUILDPANIC", "VIEWPANIC", "HANG", "CRASH"):
-                ctx.violation({"what": "table construction / view accessors do not return normally: " + il[:200], "grammar": src})
+                ctx.violation({"what": "table construction / view accessors do not return normally: " + il[:200], "grammar": src, "kind": kind})
                 ctx.oblige(False)
             continue
         if not ml.startswith("K "):
-            ctx.violation({"what": "model driver failed on the implementation's dump", "grammar": src, "model": ml[:200]}, no_input=True)
+            ctx.violation({"what": "model driver failed on the implementation's dump", "grammar": src, "kind": kind, "model": ml[:200]}, no_input=True)
             ctx.oblige(False)
             continue
         ms = model_sections(ml)
@@ -276,12 +308,12 @@ def run(ctx):
         if coherent and bad:
             ok = False
             ctx.violation({"what": "coherent_b accepts a dump that the independent re-computation rejects (%s)" % bad[0][0],
-                           "grammar": src, "clause": bad[0][0], "state": bad[0][1], "detail": bad[0][2]}, no_input=True)
+                           "grammar": src, "kind": kind, "clause": bad[0][0], "state": bad[0][1], "detail": bad[0][2]}, no_input=True)
         elif not coherent and not bad:
             ok = False
             ctx.violation({"what": "coherent_b rejects the dump but the independent re-computation finds no clause violated "
                                    "(coherent_b_sound does not apply; reach/closure clauses are only sound, not complete)",
-                           "grammar": src, "model": " | ".join(" ".join(x) for x in ms.get("RB", []))[:300], "K": k}, no_input=True)
+                           "grammar": src, "kind": kind, "model": " | ".join(" ".join(x) for x in ms.get("RB", []))[:300], "K": k}, no_input=True)
         elif bad:
             ok = False
             # one report per violated clause kind
@@ -290,7 +322,7 @@ def run(ctx):
                 if clause in seen_kinds:
                     continue
                 seen_kinds.add(clause)
-                data = {"what": "derived view / graph clause '%s' violated" % clause, "grammar": src, "clause": clause,
+                data = {"what": "derived view / graph clause '%s' violated" % clause, "grammar": src, "kind": kind, "clause": clause,
                         "state": s, "detail": detail, "family": fam,
                         "actions_of_state": {d.tname.get(a, "$end"): list(c) for (st, a), c in sorted(d.actions.items()) if st == s}}
                 if clause == "state_actions":
@@ -330,9 +362,9 @@ def run(ctx):
             ctx.violation({"what": "the mirror of StateTable::new (state_actions: first half, C03.table_mirror on the implementation's item "
                                    "sets; shifts / core reduces / reduce-only: second half, views_row on the implementation's final cells) "
                                    "does not reproduce the implementation's views",
-                           "grammar": src, "difference(tag,state,mirror,impl)": mdiff}, no_input=(ok is not False))
+                           "grammar": src, "kind": kind, "difference(tag,state,mirror,impl)": mdiff}, no_input=(ok is not False))
         ctx.oblige((ok is None or ok) and mirror_ok)
-        ctx.case(src, d.nstates >= 4, {"grammar": src, "family": fam, "states": d.nstates, "tokens": d.ntoks, "rules": d.nrules,
+        ctx.case(src, d.nstates >= 4, {"grammar": src, "kind": kind, "family": fam, "states": d.nstates, "tokens": d.ntoks, "rules": d.nrules,
                                       "coherent_b": coherent, "nonassoc_erased_cells": len(erased),
                                       "reduce_only_states": sum(1 for v in d.vro.values() if v)})
         ctx.count("coherent" if coherent else "not_coherent")
@@ -344,9 +376,13 @@ def run(ctx):
     ctx.coverage["state_x_symbol_pairs_checked"] = tot_cells
     ctx.coverage["nonassoc_erased_cells_seen"] = n_erased_cells
     ctx.coverage["known_defect_tables"] = n_known
+    ctx.coverage["tables_reducing_the_grammars_last_production"] = n_last_reduced
+    ctx.coverage["tables_reducing_a_production_numbered_after_the_start_production"] = n_added_reduced
     ctx.coverage["rule"] = ("grammars as for C03 (gen/c03gen.py: precedence-resolved and %nonassoc-removed entries so that resolution "
                             "changes cells) plus nullable-heavy, reduced random, random, LR(1)-not-LALR templates and the classic "
-                            "corpus; every state x token and state x rule of every table goes through coherent_b and through the "
+                            "corpus, all built with YaccKind::Original; plus YaccKind::Eco builds of a sample of them with 0 / 1 / 2 / 3 fresh "
+                            "%implicit_tokens (cfgrammar appends the implicit-token productions after the start production, so the "
+                            "grammar's last production is reduced); every state x token and state x rule of every table goes through coherent_b and through the "
                             "independent Python re-computation; non-trivial = table with >= 4 states; distinct by grammar text")
     ctx.assumptions += ["'reduce-only' requires at least one reduction (a state without any action is not reduce-only), matching "
                         "distinct_reduces == 1",
